@@ -223,7 +223,7 @@ func TestC01(t *testing.T) {
 		n = 60000
 	}
 	n /= nsh
-	hostile := []string{"<<\\", "$((", "`", "\\", "${", "<<E\n", "((", "'", "\"", "$(", "<<-", ";;", "\n", "#", "{", "}", "é", "\x00", "\xff", "))", ")", "&&", "|", "&"}
+	hostile := []string{"<<\"\"", "<<\"$x\"", "<<\"\\\"\"", "<<E\"\"OF", "<<''", "<<\\", "$((", "`", "\\", "${", "<<E\n", "((", "'", "\"", "$(", "<<-", ";;", "\n", "#", "{", "}", "é", "\x00", "\xff", "))", ")", "&&", "|", "&"}
 	prop := func(rt *rapid.T) {
 		o := genOpts()
 		o.MaxDepth = rapid.IntRange(1, 3).Draw(rt, "maxdepth")
